@@ -39,7 +39,7 @@ PROPERTIES = {
         "explanation": "R-TRUTHY over every boolean context of every function; R-FILLFLOW over the fill sinks; R-PARALLEL over the min_count branch; R-IDENTITYCODES: labels are their own codes only for integer labels and the index 0..n-1, both ends masked",
     },
     "C12": {
-        "rules": [rule_lazy, M.rule_combinebypass],
+        "rules": [rule_lazy, M.rule_combinebypass, CD.rule_placeholder],
         "thorough": [selftest, seeded_regression],
         "technique": "predicate abstraction over dask-ness atoms on the CFG (bitset valuations, no solver) with function summaries",
         "level_text": "Static, all-paths: on every path of the API entry points (and of every function they call while building a "
@@ -68,7 +68,7 @@ PROPERTIES = {
         "explanation": "R-ARGS, R-GLOBAL, R-MEMO, R-TOKEN",
     },
     "C19": {
-        "rules": [rule_raise, rule_defassign, rule_regkey, rule_kwsig, rule_assert, rule_cover, CD.rule_codewidth, rule_loopstore, MB.rule_names, MB.rule_attr, MB.rule_dictkeys, MB.rule_seqkind, rule_uniquefrom, rule_emptyidx, rule_fillnone, rule_aligned, rule_autorefuse, rule_autoparam, rule_blockbcast, rule_emptycohorts, rule_arity, rule_meshindex, rule_axisorder, rule_normform, rule_enginefill, rule_axisrange, PR.rule_pairs_broadcast, PR.rule_pairs_broadcast_nax, rule_qrange, M.rule_emptykernel, rule_dtypenorm],
+        "rules": [rule_raise, rule_defassign, rule_regkey, rule_kwsig, rule_assert, rule_cover, CD.rule_codewidth, rule_loopstore, MB.rule_names, MB.rule_attr, MB.rule_dictkeys, MB.rule_seqkind, rule_uniquefrom, rule_emptyidx, rule_fillnone, rule_aligned, rule_autorefuse, rule_autoparam, rule_blockbcast, rule_emptycohorts, rule_arity, rule_meshindex, rule_axisorder, rule_normform, rule_enginefill, CD.rule_placeholder, rule_axisrange, PR.rule_pairs_broadcast, PR.rule_pairs_broadcast_nax, rule_qrange, M.rule_emptykernel, rule_dtypenorm],
         "thorough": [selftest, seeded_regression],
         "technique": "CFG definite-assignment with guard correlation; call-graph reachability of raises; keyword/signature agreement of "
                      "every resolved call and partial; assert triage table",
